@@ -1,5 +1,86 @@
-(** Property C02 — statements only (filled in below as the proofs land). *)
-From WacV Require Import Wiring.
-Theorem decode_empty : decode_wiring nil nil = Some {| w_insts := nil; w_exports := nil; w_comps := nil; w_names := nil |}.
-Proof. reflexivity. Qed.
-Print Assumptions decode_empty.
+(** Property C02 — encoded wiring is exactly the composition graph. Statements only.
+
+    [decode_wiring] is run (extracted) on the item log that an independent section reader extracts from
+    the REAL output of [CompositionGraph::encode]; [wiring_spec] is computed from the composition
+    graph alone; ./check C02 compares them for every generated composition (translation validation).
+    The theorems below are about [decode_wiring] itself and about the model of the structural encoder
+    ([EncodeModel.encode_with_order]), which is tied to the code on every run (replaying the real
+    type-encoder items it must reproduce the real item log exactly). *)
+From Coq Require Import List.
+From WacV Require Import Str Graph Wiring WiringSpec EncodeModel WiringDecode WiringSim WiringCorrect WiringWitness.
+Import ListNotations.
+
+(** (a) a log that decodes has no dangling or ill-sorted structural index
+        (also C01 [structural_indices_in_scope]) *)
+Theorem decode_scoped : forall names l w, decode_wiring names l = Some w -> log_in_scope [] l = true.
+Proof. exact WiringDecode.decode_scoped. Qed.
+Print Assumptions decode_scoped.
+
+Theorem structural_indices_in_scope : forall l pre it post,
+  log_in_scope [] l = true -> l = pre ++ it :: post ->
+  match it with
+  | IInstantiate c args => c < cnt SComponent pre /\ forall nm s i, In (nm, s, i) args -> i < cnt s pre
+  | IInstanceFromExports ex => forall nm s i, In (nm, s, i) ex -> i < cnt s pre
+  | IAliasExport i _ _ => i < cnt SInstance pre
+  | IExport _ s i => i < cnt s pre
+  | _ => True
+  end.
+Proof. exact WiringDecode.in_scope_spec. Qed.
+Print Assumptions structural_indices_in_scope.
+
+(** (b) for EVERY valid topological emission order [ord] and EVERY behaviour [tau] of the type encoder
+    (it may append any well-scoped type-level items), whenever the model encoder succeeds its log decodes
+    to exactly the wiring the graph specifies: every instantiation once, its package's component, every
+    argument name bound to the designated explicit import / export of the designated instance /
+    implicit import of the canonical name, every export bound to the designated item, one embedded
+    component per package, name-section entries resolved to the realising items.
+    Side conditions: [EncInv] (consequences of the C06 graph invariant and of how the universe is built,
+    incl. "a definition has one export name") and "no import request was answered by a differently named
+    import" — both are needed for the faithful model of the current code, see the two [_refuted] theorems. *)
+Theorem wiring_correct : forall e u g dc tau ord st names,
+  EncInv e u g -> topo_orderb g ord = true ->
+  encode_with_order e u g dc tau ord = ROk (st, names) ->
+  (forall p, In p (e_dedup st) -> fst p = snd p) ->
+  option_map (erase_defs (def_names e g)) (decode_wiring names (e_log st)) = Some (wiring_spec e u g dc ord).
+Proof. exact WiringCorrect.wiring_correct. Qed.
+Print Assumptions wiring_correct.
+
+Theorem each_package_once : forall e u g dc tau ord st names w,
+  EncInv e u g -> topo_orderb g ord = true ->
+  encode_with_order e u g dc tau ord = ROk (st, names) ->
+  (forall p, In p (e_dedup st) -> fst p = snd p) ->
+  decode_wiring names (e_log st) = Some w ->
+  w_comps w = (if dc then map (we_digest e) (pkgs_in_order g ord) else []) /\
+  NoDup (pkgs_in_order g ord) /\
+  (forall p, In p (pkgs_in_order g ord) <-> exists n, In n ord /\ is_inst g n = true /\ node_pkg g n = Some p).
+Proof. exact WiringCorrect.each_package_once. Qed.
+Print Assumptions each_package_once.
+
+(** non-vacuity: a concrete composition (two instantiations of one package sharing an implicit import, an
+    alias of the first passed to the second, an export, a name, a definition) for which the model encoder
+    succeeds in both dependency modes and the decoded wiring IS the specified one *)
+Example wiring_correct_nonvacuous :
+  exists w, encoded ops_good true = Some (w, w, []) /\ length (w_insts w) = 2 /\ length (w_exports w) = 2
+            /\ encoded ops_good false = match encoded ops_good false with Some (a, _, d) => Some (a, a, d) | None => None end
+            /\ encoded ops_good false <> None.
+Proof. exact good_instance. Qed.
+
+(** The unconditional statement is FALSE of the faithful model of the current code (and of the code:
+    witnesses replayed on every run, see KNOWN-FINDING lines of ./check C02):
+    - a definition exported under a second name: only the last name is encoded;
+    - an explicit import whose interface id is also imported implicitly is answered by that import. *)
+Theorem wiring_correct_multi_named_definition_refuted :
+  match encoded ops_def_two_names true with
+  | Some (dec, spec, dd) => dd = [] /\ dec <> spec
+  | None => False
+  end.
+Proof. exact def_two_names_refutes. Qed.
+Print Assumptions wiring_correct_multi_named_definition_refuted.
+
+Theorem wiring_correct_interface_id_dedup_refuted :
+  match encoded ops_dedup true with
+  | Some (dec, spec, dd) => dd <> [] /\ dec <> spec
+  | None => False
+  end.
+Proof. pose proof dedup_refutes as H. destruct (encoded ops_dedup true) as [[[dec spec] dd]|]; auto. destruct H as [-> H]. split; [discriminate | exact H]. Qed.
+Print Assumptions wiring_correct_interface_id_dedup_refuted.
